@@ -16,3 +16,16 @@ package dochandler
 //@ func (r *DocumentHandler) ResolveDocument(longFormDID, opts) (ret, err)
 //@   requires wfHandler(r)
 //@   ensures [atomic] err != nil ==> ret == nil
+// C17: a handler resolves only DIDs of its own namespace -- the namespace followed by the delimiter,
+// so that a method whose name merely starts with this handler's name is refused
+//@   ensures [own-namespace] err == nil ==> hasPrefix(longFormDID, r.namespace + ":")
+// ... that are long-form: the text after the last delimiter is the unpadded base64url encoding of the
+// canonical JSON of the create request it decodes to (a short-form DID, a tampered or re-encoded
+// initial state are refused) ...
+//@   ensures [initial-state] err == nil ==> old(initialStateOK(initialStateOf(longFormDID)))
+// ... and whose suffix segment is the suffix of that very create request
+//@   let pv, perr := r.protocolClient.Current()
+//@   let short, req, derr := pv.OperationParser().ParseDID(r.namespace, longFormDID)
+//@   let op, oerr := pv.OperationParser().Parse(r.namespace, req)
+//@   let parts := strings.Split(longFormDID[0:strings.LastIndex(longFormDID, ":")], ":")
+//@   ensures [suffix] err == nil ==> oerr == nil && len(parts) >= 3 && parts[len(parts)-1] == op.UniqueSuffix
